@@ -152,13 +152,22 @@ static int run(const ZI* const* reg, int n, int i0, int i1, int y0, int y1, int 
       long mid = days_from_civil(B, 7, 2) * 86400L;
       ftz.getUtcOffset((acetime_t) mid);
       refTable[B - y0] = table(*fp);
-      for (int d = 2; d < 363; d += step) {
-        long t = (days_from_civil(B, 1, 1) + d) * 86400L + 43200;
-        probes[B - y0].push_back(t);
-        refAns[B - y0].push_back(answers(ftz, t));
-      }
       fp->~ZP();
       free(mem);
+      // probes: a lattice through the year plus its first and last hours (UTC), where the UTC date and a zone's local date
+      // differ; the reference answer of every probe comes from a processor that has never served anything else
+      std::vector<long> ts;
+      for (int d = 2; d < 363; d += step) ts.push_back((days_from_civil(B, 1, 1) + d) * 86400L + 43200);
+      for (long h = 1800; h <= 14 * 3600; h += 3 * 3600 + 1800) { ts.push_back(days_from_civil(B, 1, 1) * 86400L + h); ts.push_back(days_from_civil(B + 1, 1, 1) * 86400L - h); }
+      for (long t : ts) {
+        void* m2 = calloc(1, sizeof(ZP));
+        ZP* p2 = new (m2) ZP();
+        TimeZone tz2 = TimeZone::forZoneInfo(zi, p2);
+        probes[B - y0].push_back(t);
+        refAns[B - y0].push_back(answers(tz2, t));
+        p2->~ZP();
+        free(m2);
+      }
     }
     ZP proc;   // long-lived: never re-created between pairs, like the processor of a running application
     TimeZone tz = TimeZone::forZoneInfo(zi, &proc);
